@@ -6,7 +6,8 @@
    objects created so far); [step st o] = (state after, what the caller
    observes: the urllib Request handed to the opener, or the exception class).
    [reachable st]: st is produced from the empty state by ANY sequence of
-   operations other than add_adapter.  [flat_own c] = adapters the connection
+   operations other than add_adapter; [reachable_any st] (C17/LemmasAdd.v): by
+   any sequence at all (theorems 9-14).  [flat_own c] = adapters the connection
    was constructed with ++ those of its parent ++ ... (the whole chain).
    [spec_of h addr ids ads q] (C17/Lemmas.v) is the pure, heap-free function
    "apply the adapters [ads] in list order to (path, copy of the caller's
